@@ -203,11 +203,13 @@ nni_epoll_thr(void *arg)
 		int  n;
 		bool reap = false;
 
+		NNI_VERIF_EV(NNI_VE_POLL_END, pq, 0, 0);
 		n = epoll_wait(pq->epfd, events, NNI_MAX_EPOLL_EVENTS, -1);
 		if ((n < 0) && (errno == EBADF)) {
 			// Epoll fd closed, bail.
 			return;
 		}
+		NNI_VERIF_EV(NNI_VE_POLL_BEGIN, pq, n, 0);
 
 		// dispatch events
 		for (int i = 0; i < n; ++i) {
@@ -240,6 +242,7 @@ nni_epoll_thr(void *arg)
 			nni_posix_pollq_reap(pq);
 			if (pq->close) {
 				nni_mtx_unlock(&pq->mtx);
+				NNI_VERIF_EV(NNI_VE_POLL_END, pq, 0, 0);
 				return;
 			}
 			nni_mtx_unlock(&pq->mtx);
